@@ -99,8 +99,8 @@ var coerceTargets = []string{"t", "list", "vector", "string", "character", "symb
 // the requested type; "" if none does.
 func coerceKnown(src *node, target string, res slip.Object) string {
 	switch {
-	case res == nil && (target == "list" || target == "vector" || target == "octets" || target == "string" || target == "bit-vector"):
-		return "C16-nil-is-only-null"
+	case res == nil && (target == "vector" || target == "octets"):
+		return "C16-coerce-nil-to-vector-is-nil"
 	}
 	return ""
 }
@@ -293,7 +293,8 @@ func subCode(o common.Outcome) int {
 }
 
 // typeAgreeKnown: disagreements of typep and subtypep covered by known findings: the object's type-of does
-// not name a registered class (list, cons, null), or the type asked about is t, which is not a class either.
+// not name a registered class (t; list, cons and null before repair C16-7), or the type asked about is t, which is
+// not a class either.
 func typeAgreeKnown(kind, tof, ty string) bool {
 	switch tof {
 	case "list", "cons", "null", "t":
